@@ -276,7 +276,10 @@ func (s *lstate) join(o *lstate) bool {
 // LockSummary is the net effect of a function on locks rooted at globals,
 // parameters or captured variables.
 type LockSummary struct {
-	Net map[string]int // key (path, with (R) suffix) -> +1 / -1
+	// Acquires: every lock (key in the function's own namespace, global- or parameter-rooted)
+	// that the function or one of its static callees acquires at some point
+	Acquires map[string]bool
+	Net      map[string]int // key (path, with (R) suffix) -> +1 / -1
 	// Mixed lists locks whose count differs between exits (reported separately)
 	Mixed map[string]cset
 }
@@ -323,7 +326,7 @@ func (la *LockAnalysis) Summary(fn *ssa.Function) *LockSummary {
 		return s
 	}
 	if fn == nil || fn.Blocks == nil || la.inprog[fn] {
-		return &LockSummary{}
+		return &LockSummary{Acquires: map[string]bool{}}
 	}
 	la.inprog[fn] = true
 	s := la.analyse(fn)
@@ -652,7 +655,55 @@ func (la *LockAnalysis) analyse(fn *ssa.Function) *LockSummary {
 			la.report(fn, "double-acquire", ev.op.key(), ins, "lock may already be held here (self-deadlock)")
 		}
 	})
-	sum := &LockSummary{Net: map[string]int{}, Mixed: map[string]cset{}}
+	sum := &LockSummary{Net: map[string]int{}, Mixed: map[string]cset{}, Acquires: map[string]bool{}}
+	// locks acquired here or in callees; and: a callee acquiring a lock that is held at the call
+	held := la.heldMay(fn)
+	Instrs(fn, func(i ssa.Instruction) {
+		ci, ok := i.(ssa.CallInstruction)
+		if !ok {
+			return
+		}
+		if op, ok := DirectLockOp(ci); ok {
+			if op.Kind > 0 && !strings.HasPrefix(op.Path, "?") {
+				sum.Acquires[op.key()] = true
+			}
+			return
+		}
+		if _, isGo := i.(*ssa.Go); isGo {
+			return // runs on another goroutine
+		}
+		cal := StaticCallee(ci)
+		if cal == nil || !core.InModule(cal) {
+			return
+		}
+		cs := la.Summary(cal)
+		keys := make([]string, 0, len(cs.Acquires))
+		for k := range cs.Acquires {
+			keys = append(keys, k)
+		}
+		sort.Strings(keys)
+		for _, k := range keys {
+			ck, ok := mapCalleeKey(k, cal, ci)
+			if !ok {
+				continue
+			}
+			sum.Acquires[ck] = true
+			if _, isDefer := i.(*ssa.Defer); isDefer {
+				continue
+			}
+			for _, h := range held[i] {
+				// a write lock conflicts with any hold; a read lock conflicts with a write hold
+				hb, kb := strings.TrimSuffix(h, "(R)"), strings.TrimSuffix(ck, "(R)")
+				if hb != kb {
+					continue
+				}
+				if strings.HasSuffix(h, "(R)") && strings.HasSuffix(ck, "(R)") {
+					continue
+				}
+				la.report(fn, "callee-acquires-held", kb, i, fmt.Sprintf("%s acquires %s, which is held at this call (self-deadlock)", core.FuncName(cal), kb))
+			}
+		}
+	})
 	all := map[string]cset{}
 	for _, e := range rets {
 		for k := range e.st.cnt {
@@ -708,6 +759,28 @@ func (la *LockAnalysis) analyse(fn *ssa.Function) *LockSummary {
 		}
 	}
 	return sum
+}
+
+// heldMay: for every instruction, the lock keys that may be held (count includes +1) just before it.
+func (la *LockAnalysis) heldMay(fn *ssa.Function) map[ssa.Instruction][]string {
+	res := map[ssa.Instruction][]string{}
+	la.flow(fn, func(ins ssa.Instruction, st *lstate) {
+		if _, ok := ins.(ssa.CallInstruction); !ok {
+			return
+		}
+		var hs []string
+		for k, v := range st.cnt {
+			if v&(c1|c2) != 0 {
+				hs = append(hs, k)
+			}
+		}
+		for k := range st.deferred {
+			hs = append(hs, k)
+		}
+		sort.Strings(hs)
+		res[ins] = hs
+	}, nil)
+	return res
 }
 
 // TakesLock reports whether fn contains a lock operation (direct or via a callee summary).
